@@ -1,0 +1,89 @@
+/*
+ * Trace helpers of the verification hooks (see VerifHooks.h).  Compiled only with -DOPENSMT_VERIF.
+ * Every clause line carries signed SAT-variable numbers (v+1, negative = negated); the first time a variable is
+ * mentioned a line "VAR <n> <term>" is emitted, preceded by "DECL <symbol> <arg sorts> <sort>" lines for the
+ * uninterpreted symbols of the term that have not been announced yet.
+ */
+#ifndef OPENSMT_VERIFTRACE_H
+#define OPENSMT_VERIFTRACE_H
+
+#include "VerifHooks.h"
+
+#ifdef OPENSMT_VERIF
+
+#include <logics/Logic.h>
+#include <minisat/core/SolverTypes.h>
+
+#include <string>
+#include <unordered_set>
+#include <vector>
+
+namespace opensmt::verif {
+
+struct Announced {
+    void const * owner = nullptr;
+    FILE * sink = nullptr;
+    std::vector<char> vars;
+    std::unordered_set<uint32_t> symbols;
+};
+
+inline Announced & announced(void const * owner) {
+    static Announced a;
+    if (a.owner != owner or a.sink != state().sink) {
+        a.owner = owner;
+        a.sink = state().sink;
+        a.vars.clear();
+        a.symbols.clear();
+    }
+    return a;
+}
+
+inline void declareSymbolsOf(Logic const & logic, PTRef root) {
+    Announced & a = announced(&logic);
+    std::vector<PTRef> todo{root};
+    std::unordered_set<uint32_t> seen;
+    while (not todo.empty()) {
+        PTRef tr = todo.back();
+        todo.pop_back();
+        if (not seen.insert(tr.x).second) { continue; }
+        Pterm const & t = logic.getPterm(tr);
+        SymRef sr = t.symb();
+        if (not logic.isInterpreted(sr) and not logic.isConstant(sr) and a.symbols.insert(sr.x).second) {
+            Symbol const & sym = logic.getSym(sr);
+            std::string line = "DECL\t" + logic.protectName(sr) + "\t";
+            for (unsigned i = 0; i < sym.nargs(); ++i) { line += (i ? " " : "") + logic.sortToString(sym[i]); }
+            line += "\t" + logic.sortToString(sym.rsort());
+            emit(line);
+        }
+        for (int i = 0; i < t.size(); ++i) { todo.push_back(t[i]); }
+    }
+}
+
+inline void announceVar(Logic const & logic, Var v, PTRef term) {
+    Announced & a = announced(&logic);
+    if (static_cast<std::size_t>(v) >= a.vars.size()) { a.vars.resize(v + 1, 0); }
+    if (a.vars[v]) { return; }
+    a.vars[v] = 1;
+    declareSymbolsOf(logic, term);
+    emit("VAR\t" + std::to_string(v + 1) + "\t" + logic.termToSMT2String(term));
+}
+
+inline std::string litText(Lit l) {
+    return std::to_string(sign(l) ? -(var(l) + 1) : (var(l) + 1));
+}
+
+// emit "<kind> l1 l2 ..." announcing the variables first; varToTerm maps a SAT variable to its term
+template<typename Lits, typename VarToTerm>
+inline void emitClause(std::string kind, Logic const & logic, Lits const & lits, VarToTerm varToTerm) {
+    for (Lit l : lits) { announceVar(logic, var(l), varToTerm(var(l))); }
+    for (Lit l : lits) {
+        kind += ' ';
+        kind += litText(l);
+    }
+    emit(kind);
+}
+
+} // namespace opensmt::verif
+
+#endif // OPENSMT_VERIF
+#endif // OPENSMT_VERIFTRACE_H
